@@ -35,7 +35,7 @@ def export_tree(dst):
 def main():
     prop, x = sys.argv[1], sys.argv[2]
     keep = sys.argv[sys.argv.index("--keep") + 1] if "--keep" in sys.argv else None
-    seed = "/tmp/seed/%s/SEED" % prop
+    seed = os.path.join(os.environ.get("SEED_ROOT", "/tmp/seed"), prop, "SEED")
     patch = os.path.join(seed, "%s.patch.diff" % x)
     demo = os.path.join(seed, "%s.demo.py" % x)
     notes = os.path.join(seed, "%s.notes.md" % x)
